@@ -16,7 +16,7 @@
 (*  Fault # "none" replaces one operation by a faulty one: TLC must then report a violation     *)
 (*  (vacuity guards run by checks/c04.py).                                                      *)
 EXTENDS Projectors
-CONSTANTS MaxDepth, MaxN, MaxHistView, Fault
+CONSTANTS MaxDepth, MaxN, MaxHistView, HistClassIdx, Fault
 VARIABLES task, res, hsys, st, prev, last, contrib, lastOut, depth
 
 vars == << task, res, hsys, st, prev, last, contrib, lastOut, depth >>
@@ -24,7 +24,9 @@ vars == << task, res, hsys, st, prev, last, contrib, lastOut, depth >>
 RECURSIVE SetToSeq(_)
 SetToSeq(S) == IF S = {} THEN << >> ELSE LET e == CHOOSE e \in S : TRUE IN << e >> \o SetToSeq(S \ {e})
 CfgOf(cl) == [views |-> 4, maxSeg |-> 1, s90 |-> cl[1], s180 |-> cl[2], sseg |-> cl[3], minTof |-> 0, maxTof |-> 0]
-Classes == { << FALSE, FALSE, FALSE >>, << FALSE, FALSE, TRUE >>, << FALSE, TRUE, FALSE >>, << FALSE, TRUE, TRUE >>, << TRUE, TRUE, TRUE >> }
+ClassSeq == << << FALSE, FALSE, FALSE >>, << FALSE, FALSE, TRUE >>, << FALSE, TRUE, FALSE >>, << FALSE, TRUE, TRUE >>, << TRUE, TRUE, TRUE >> >>
+Classes == Range(ClassSeq)
+HistClasses == { ClassSeq[i] : i \in HistClassIdx }
 
 SysA == LET c == [views |-> 5, maxSeg |-> 0, s90 |-> FALSE, s180 |-> FALSE, sseg |-> FALSE, minTof |-> 0, maxTof |-> 0]
             B == { << vs, 0, 0, 0 >> : vs \in AllVS(c) } IN
@@ -111,7 +113,7 @@ Hist == res = "hist" /\ depth < MaxDepth
 Step(a, s2) == /\ st' = s2 /\ prev' = st /\ last' = a /\ depth' = depth + 1 /\ UNCHANGED << task, res, hsys >>
 Init ==
   \/ /\ task \in Tasks /\ res = "todo" /\ hsys = << >> /\ st = << >> /\ prev = << >> /\ last = NoAction /\ contrib = << >> /\ lastOut = << >> /\ depth = 0
-  \/ /\ task \in { [kind |-> "hist", cl |-> cl, arg |-> 0] : cl \in Classes } /\ res = "hist"
+  \/ /\ task \in { [kind |-> "hist", cl |-> cl, arg |-> 0] : cl \in HistClasses } /\ res = "hist"
      /\ hsys = SysB(task.cl)
      /\ st = InitState(hsys, InitData(hsys)) /\ prev = st /\ last = NoAction
      /\ contrib = << >> /\ lastOut = ZeroImage(hsys) /\ depth = 0
